@@ -142,7 +142,8 @@ class NsRun:
                     self.unexplained.append((target, tr[:k + 1]))
                     break
 
-    def random(self, nplans, length, sym=True, own=True, names="a,b,c", depth=3, seed=None, handles=False):
+    def random(self, nplans, length, sym=True, own=True, names="a,b,c", depth=3, seed=None, handles=False, perm=False,
+               targets=("memfs", "orefafs")):
         seed = self.seed if seed is None else seed
         plans = self.sc.path("plans-%d.ndjson" % seed)
         otrace = self.sc.path("osfs-%d.trace" % seed)
@@ -155,6 +156,8 @@ class NsRun:
             cmd.append("-own")
         if handles:
             cmd.append("-handles")
+        if perm:
+            cmd.append("-perm")
         r = subprocess.run(cmd, capture_output=True, text=True, env=env, timeout=1800)
         if r.returncode != 0:
             raise Infra("random generation failed: " + r.stderr[-2000:])
@@ -164,8 +167,9 @@ class NsRun:
         if v["unexplained"]:
             by = {(e["tr"], e["i"]): e for e in oevs}
             for k in v["unexplained"][:5]:
-                self.spec_mismatch.append("random plan: " + brief(by[k]))
-        for target in ("memfs", "orefafs"):
+                ctx = [by[(k[0], i)] for i in range(max(1, k[1] - 7), k[1] + 1) if (k[0], i) in by]
+                self.spec_mismatch.append("random plan %s step %d: " % k + " ; ".join(brief(e) for e in ctx))
+        for target in targets:
             procs = []
             for k in range(vlib.NCPU):
                 out = self.sc.path("%s-%d-%d.trace" % (target, seed, k))
